@@ -93,6 +93,19 @@ def gen(rng):
     if rng.random() < 0.15:
         td = rng.choice([home + '/mytrash', 'reltrash', home + '/w/sib/T'] +
                         [v + '/customtrash' for v in L['vols']])
+        if rng.random() < 0.3:
+            # spelled through '<symlink>/..': the kernel resolves it to a directory next to the link's TARGET; at the textually
+            # collapsed place there is another trash directory, holding entries named like the arguments
+            steps.append(['d', home + '/store/data', 0o755])
+            steps.append(['l', home + '/w/datalink', home + '/store/data'])
+            td = home + '/w/datalink/../.Trash-x'
+            decoy = home + '/w/.Trash-x'
+            steps.append(['d', decoy + '/files', 0o700])
+            steps.append(['d', decoy + '/info', 0o700])
+            for a_ in args:
+                b_ = posixpath.basename(a_.rstrip('/'))
+                if b_ and b_ not in ('.', '..') and len(b_.encode('utf-8', 'surrogateescape')) < 240:
+                    steps.append(['f', decoy + '/files/' + b_, 'decoy payload - not yours to replace', 0o644])
         opts += ['--trash-dir', td]
     if rng.random() < 0.2:
         opts.append('--home-fallback')
@@ -213,8 +226,8 @@ def check(sim, case, st):
     td = opt_value(argv, '--trash-dir')
     if td:
         tdabs = td if td.startswith('/') else posixpath.join(cwd, td)
-        p = tdabs
-        while p and p != '/':
+        p = posixpath.normpath(tdabs) if '..' not in tdabs.split('/') else tdabs
+        while p and p.strip('/') and posixpath.dirname(p) != p:
             extra_dirs.append(p)
             p = posixpath.dirname(p)
     outcomes, problems = OP.judge(sim.root, before, after, named, mounts, extra_dirs)
